@@ -484,53 +484,58 @@ func genTuples(r *rand.Rand, n int) []tuple {
 // rolloverIsolation: sessions stay separate after a key rollover. Two independent key exchanges (A->B, C->D) both
 // cross the 32-bit wrap of the regular counter; frames sealed afterwards must unseal at their receiver and under no
 // session of the other exchange.
-func rolloverIsolation(res *core.Result, r *rand.Rand) {
+func rolloverIsolation(res *core.Result, r *rand.Rand, wraps1, wraps2 int) {
 	type side struct {
 		p     *env.Pair
 		after [][]byte
 	}
-	mk := func() (*side, bool) {
+	// wraps: how many times the sender's regular counter wraps (each wrap derives the next key from the
+	// previous one on both sides); the frames kept are those sealed after the last wrap
+	mk := func(wraps int) (*side, bool) {
 		s := &side{p: env.NewPair(r, "c02 rollover")}
 		h := &state.EncryptionSessionTestHelper{EncryptionSession: s.p.AB.Encryption()}
-		h.ReglSetOut(0xFFFFFFFF - uint32(4+r.IntN(3)))
-		for i := 0; i < 14; i++ {
-			// priority and regular frames before the wrap, regular frames across it, all classes after it
-			mt := []frame.MessageType{frame.SessionData, frame.NetworkTraffic, frame.RouterCtrl, frame.SessionCtrl}[i%4]
-			if i < 3 {
-				mt = []frame.MessageType{frame.RouterCtrl, frame.SessionCtrl, frame.RouterCtrl}[i]
-			} else if i < 10 {
-				mt = frame.SessionData // regular class: crosses the wrap
-			}
-			f, err := s.p.A.BuilderV.NewFrameV1(s.p.A.IdentityV.IP, s.p.B.IdentityV.IP, mt, nil, []byte("c02 rollover payload"), nil)
-			if err != nil {
-				return nil, false
-			}
-			if err := f.Seal(s.p.AB); err != nil {
+		for wrap := 0; wrap < wraps; wrap++ {
+			s.after = nil
+			h.ReglSetOut(0xFFFFFFFF - uint32(4+r.IntN(3)))
+			for i := 0; i < 14; i++ {
+				// priority and regular frames before the wrap, regular frames across it, all classes after it
+				mt := []frame.MessageType{frame.SessionData, frame.NetworkTraffic, frame.RouterCtrl, frame.SessionCtrl}[i%4]
+				if i < 3 {
+					mt = []frame.MessageType{frame.RouterCtrl, frame.SessionCtrl, frame.RouterCtrl}[i]
+				} else if i < 10 {
+					mt = frame.SessionData // regular class: crosses the wrap
+				}
+				f, err := s.p.A.BuilderV.NewFrameV1(s.p.A.IdentityV.IP, s.p.B.IdentityV.IP, mt, nil, []byte("c02 rollover payload"), nil)
+				if err != nil {
+					return nil, false
+				}
+				if err := f.Seal(s.p.AB); err != nil {
+					f.ReturnToPool()
+					res.Violate("seal-failed:across-rollover", fmt.Sprintf("sealing frame %d across the regular counter wrap failed: %v", i, err), nil)
+					return nil, false
+				}
+				d, _ := f.FrameDataWithMargins(0, 0)
+				data := append([]byte(nil), d...)
 				f.ReturnToPool()
-				res.Violate("seal-failed:across-rollover", fmt.Sprintf("sealing frame %d across the regular counter wrap failed: %v", i, err), nil)
-				return nil, false
-			}
-			d, _ := f.FrameDataWithMargins(0, 0)
-			data := append([]byte(nil), d...)
-			f.ReturnToPool()
-			g, err := s.p.B.BuilderV.ParseFrame(append([]byte(nil), data...), nil, 0)
-			if err != nil {
-				return nil, false
-			}
-			uerr := g.Unseal(s.p.BA)
-			g.ReturnToPool()
-			if uerr != nil {
-				res.Violate("roundtrip-fails:across-rollover", fmt.Sprintf("frame %d sealed across the regular counter wrap does not unseal at its receiver: %v", i, uerr), nil)
-				return nil, false
-			}
-			if i >= 10 {
-				s.after = append(s.after, data)
+				g, err := s.p.B.BuilderV.ParseFrame(append([]byte(nil), data...), nil, 0)
+				if err != nil {
+					return nil, false
+				}
+				uerr := g.Unseal(s.p.BA)
+				g.ReturnToPool()
+				if uerr != nil {
+					res.Violate("roundtrip-fails:across-rollover", fmt.Sprintf("frame %d sealed across the regular counter wrap does not unseal at its receiver: %v", i, uerr), nil)
+					return nil, false
+				}
+				if i >= 10 {
+					s.after = append(s.after, data)
+				}
 			}
 		}
 		return s, true
 	}
-	s1, ok1 := mk()
-	s2, ok2 := mk()
+	s1, ok1 := mk(wraps1)
+	s2, ok2 := mk(wraps2)
 	if !ok1 || !ok2 {
 		return
 	}
@@ -553,13 +558,14 @@ func rolloverIsolation(res *core.Result, r *rand.Rand) {
 		}
 	}
 	res.Count("rollover_isolation_pairs", 1)
-	res.Case(fmt.Sprintf("rollover-isolation|%d", r.IntN(1<<30)), true)
+	res.Count(fmt.Sprintf("rollover_isolation_wraps_%d_%d", wraps1, wraps2), 1)
+	res.Case(fmt.Sprintf("rollover-isolation|%d|%d|%d", wraps1, wraps2, r.IntN(1<<30)), true)
 }
 
 func run(c *core.Ctx) {
 	res := c.Res
-	for i := 0; i < c.Q(6, 60); i++ {
-		rolloverIsolation(res, core.RNG(fmt.Sprintf("c02/rollover/%d", i)))
+	for i := 0; i < c.Q(9, 63); i++ {
+		rolloverIsolation(res, core.RNG(fmt.Sprintf("c02/rollover/%d", i)), 1+i%3, 1+(i/3)%3)
 	}
 	const W = 16
 	n := c.Q(210, 1260)
